@@ -298,8 +298,8 @@ def twin_expr(nodes, e, st, fnitems, lets=None):
         site = n["site"]
         if n["wrapped"]:
             param = st[site]["param"]
-            inner = twin_expr(n["inner"], "v", st, fnitems, lets)
-            clo = f"|v| {inner}"
+            inner = twin_expr(n["inner"], "__w", st, fnitems, lets)     # (not `v`: that is one of the hygiene probe names)
+            clo = f"|__w| {inner}"
             if op == "inspect":
                 e = f"{{ let __t = {e}; ({clo})(&__t); __t }}"
             else:
